@@ -5,6 +5,7 @@ package simrt
 
 type Rand struct{ s [4]uint64 }
 
+//go:norace
 func splitmix(x *uint64) uint64 {
 	*x += 0x9e3779b97f4a7c15
 	z := *x
@@ -24,6 +25,7 @@ func Mix(seed uint64, purpose string) uint64 {
 	return splitmix(&x)
 }
 
+//go:norace
 func NewRand(seed uint64, purpose string) *Rand {
 	x := Mix(seed, purpose)
 	r := &Rand{}
@@ -35,6 +37,7 @@ func NewRand(seed uint64, purpose string) *Rand {
 
 func rotl(x uint64, k uint) uint64 { return (x << k) | (x >> (64 - k)) }
 
+//go:norace
 func (r *Rand) Uint64() uint64 {
 	s := &r.s
 	res := rotl(s[1]*5, 7) * 9
@@ -49,6 +52,8 @@ func (r *Rand) Uint64() uint64 {
 }
 
 // Intn returns a value in [0,n). n<=0 returns 0.
+//
+//go:norace
 func (r *Rand) Intn(n int) int {
 	if n <= 1 {
 		return 0
@@ -56,10 +61,13 @@ func (r *Rand) Intn(n int) int {
 	return int(r.Uint64() % uint64(n))
 }
 
+//go:norace
 func (r *Rand) Float64() float64 { return float64(r.Uint64()>>11) / (1 << 53) }
 
+//go:norace
 func (r *Rand) Bool(p float64) bool { return r.Float64() < p }
 
+//go:norace
 func (r *Rand) Perm(n int) []int {
 	p := make([]int, n)
 	for i := range p {
@@ -73,6 +81,8 @@ func (r *Rand) Perm(n int) []int {
 }
 
 // Range returns a value in [lo,hi].
+//
+//go:norace
 func (r *Rand) Range(lo, hi int) int {
 	if hi <= lo {
 		return lo
